@@ -100,11 +100,13 @@ def check(run: Run) -> None:
         ops_py, ops_coq, outs = [], [], []
         cfg, ty = structs.cfg_term(cs, text), structs.ty_term(U)
         start_term = structs.value_term(u, U)
+        force_f = None
         for step in range(rng.randrange(1, 5)):
-            f = rng.choice(U.__fields__)
+            f = force_f or rng.choice(U.__fields__)
+            forced, force_f = force_f is not None, None
             before = bytes(u.__dict__["_buf"])
             try:
-                if issubclass(f.type, Structure) and f.name is not None and rng.random() < 0.7:
+                if issubclass(f.type, Structure) and f.name is not None and (forced or rng.random() < 0.7):
                     # through the nested structure (proxy)
                     inner = rng.choice([g for g in f.type.__fields__ if not issubclass(g.type, Structure)] or f.type.__fields__)
                     if issubclass(inner.type, Structure):
@@ -126,7 +128,12 @@ def check(run: Run) -> None:
                     newfull = object.__getattribute__(newfull, "__target__") if type(newfull) is UnionProxy else newfull
                     expect = before[:(f.offset or 0)] + f.type.dumps(newfull) + before[(f.offset or 0) + f.type.size:]
                 else:
-                    nv = structs.gen_py(f.type, rng)
+                    if issubclass(f.type, Structure) and f.name is not None and f.type.size and rng.random() < 0.4:
+                        # a whole-member assignment that does not change the union's bytes, followed by an assignment through that member
+                        nv = f.type(before[(f.offset or 0):(f.offset or 0) + f.type.size])
+                        force_f = f
+                    else:
+                        nv = structs.gen_py(f.type, rng)
                     expect = member_bytes_expectation(cs, U, u, f._name, nv)
                     setattr(u, f._name, nv)
                     desc = f"u.{f._name} = {nv!r}"
